@@ -55,6 +55,12 @@ type OutSpec struct {
 	Key   string // result-object field name tag
 	Group string // result-object field group tag
 	Nil   bool   // the constructor always returns nil for this (interface-typed, secondary) output
+	// HasAlt: the declared type is an interface and the constructor returns a
+	// value of concrete type Alt instead of Impl on every second invocation
+	// (implementations chosen at run time: one may have a Close method, the
+	// other not).
+	HasAlt bool
+	Alt    int
 }
 
 // DepSpec is one declared dependency.
@@ -101,6 +107,11 @@ type Reg struct {
 	As     []int
 	Kind   int
 	BadOpt int // hostile option appended to the call (C15/C17/C20)
+	// Dropped: indices into AllProvides() of identities that are removed from
+	// the collection again (Remove / RemoveKeyed) right after the registration
+	// call. The constructor still produces those outputs, but they are not
+	// services: the registration behaves as if it had never provided them.
+	Dropped map[int]bool
 }
 
 // Hostile options
@@ -137,6 +148,9 @@ func (r Reg) String() string {
 		sb.WriteString(TypeName(o.T))
 		if o.Impl != o.T {
 			sb.WriteString("=" + TypeName(o.Impl))
+			if o.HasAlt {
+				sb.WriteString("/" + TypeName(o.Alt))
+			}
 		}
 		if o.Nil {
 			sb.WriteString("=nil")
@@ -164,6 +178,14 @@ func (r Reg) String() string {
 			sb.WriteString(TypeName(a))
 		}
 	}
+	if len(r.Dropped) > 0 {
+		sb.WriteString(" removed=")
+		for i, p := range r.AllProvides() {
+			if r.Dropped[i] {
+				sb.WriteString(p.Ident.String() + ",")
+			}
+		}
+	}
 	if len(r.Deps) > 0 {
 		if r.UseIn {
 			sb.WriteString(" in{")
@@ -182,12 +204,22 @@ func (r Reg) String() string {
 }
 
 // Config is an ordered list of registrations.
-type Config struct{ Regs []Reg }
+type Config struct {
+	Regs []Reg
+	// PreBuild > 0: the first PreBuild registrations (in registration order)
+	// are registered and the collection is built, used and closed once before
+	// the remaining registrations are added and the collection is built for
+	// real. Building is not supposed to leave anything behind in the collection.
+	PreBuild int
+}
 
 func (c *Config) String() string {
 	parts := make([]string, len(c.Regs))
 	for i, r := range c.Regs {
 		parts[i] = r.String()
+	}
+	if c.PreBuild > 0 {
+		return fmt.Sprintf("[built once after the first %d] ", c.PreBuild) + strings.Join(parts, " ; ")
 	}
 	return strings.Join(parts, " ; ")
 }
@@ -199,9 +231,30 @@ type Provided struct {
 	Out   int
 }
 
+// Provides lists the identities the registration provides once its dropped
+// identities have been removed again.
 func (r Reg) Provides() []Provided {
+	all := r.AllProvides()
+	if len(r.Dropped) == 0 {
+		return all
+	}
+	ps := make([]Provided, 0, len(all))
+	for i, p := range all {
+		if !r.Dropped[i] {
+			ps = append(ps, p)
+		}
+	}
+	return ps
+}
+
+// AllProvides lists the identities the registration call itself registers.
+func (r Reg) AllProvides() []Provided {
 	switch r.Form {
 	case FormVoid:
+		if r.Name != "" {
+			// a named initializer is resolvable as a keyed empty struct
+			return []Provided{{Ident{T: TVoid, Key: r.Name}, 0}}
+		}
 		return nil
 	case FormPlain, FormInstance:
 		if len(r.As) > 0 {
@@ -230,4 +283,13 @@ func (r Reg) Provides() []Provided {
 		return ps
 	}
 	return nil
+}
+
+// implFor picks the concrete type the constructor allocates for this output in
+// the given invocation.
+func (o OutSpec) implFor(inv *Inv) int {
+	if o.HasAlt && inv != nil && inv.N%2 == 0 {
+		return o.Alt
+	}
+	return o.Impl
 }
